@@ -12,6 +12,9 @@ scripts of the same API calls; `Step.loopBadf` for the EBADF turn of select; `St
 `exec (initL L) sts = some s` says that `sts` is such an execution of a loop whose back-end has
 `FD_SETSIZE = L` (`L = 0`: none, epoll; `initL 0 = init`).  The model is the REPAIRED code
 (patches/C03-01…04); the code as found is refuted in `AsFound.lean`.
+Round 4: the API calls include the run-time kernel conditions (`Act.cond`: peer closed, peer shut down, pipe ends closed;
+descriptor 8 is a refused connection) and `enable()` with a refused `EPOLL_CTL_ADD` (`Act.enableF`), so every theorem
+below quantifies over them as well; `validReady` is what each engine reports under hang-up / error (`reportOf`).
 -/
 import TboxModel.C03.OrderIndep
 import TboxModel.C03.ProofsLim
@@ -144,20 +147,21 @@ theorem nodup_of_map_fst {l : List (Nat × Nat)} (h : (l.map (·.1)).Nodup) : l.
   List.Pairwise.of_map (·.1) (fun _ _ hne heq => hne (by rw [heq])) h
 
 theorem validReady_unpack {be : Backend} {s : State} {r : List (Nat × Nat)} (h : validReady be s r = true) :
-    (r.map (·.1)).Nodup ∧ ∀ fm ∈ r, fm.2 = interest be s fm.1 &&& actualMask s fm.1 := by
+    (r.map (·.1)).Nodup ∧ ∀ fm ∈ r, fm.2 = reported be s fm.1 := by
   unfold validReady at h
   simp only [Bool.and_eq_true, decide_eq_true_eq, List.all_eq_true, bne_iff_ne, ne_eq, beq_iff_eq] at h
   exact ⟨h.1.1, fun fm hfm => (h.1.2 fm hfm).2⟩
 
-/-- **back-ends agree**: from the same consistent state, with the same descriptors reported ready,
-a pass of the select back-end (ascending descriptor order) and a pass of the epoll back-end (kernel
-order) deliver the same callbacks (as a multiset of (event, readiness mask)), for every scenario whose
-outcome does not depend on the serving order. -/
-theorem C03_backends_agree (s : State) (h : Inv s) (S : Sync s) (rE rS : List (Nat × Nat))
+/-- on a descriptor without hang-up / error condition both engines report the same mask -/
+theorem reported_agree (s : State) (h : Inv s) (S : Sync s) (f : Nat) (hq : quietFd s f = true) :
+    reported .epoll s f = reported .select s f := by
+  rw [reported_quiet hq, reported_quiet hq, C03_interest_agree s h S]
+
+/-- the same descriptors reported ready, none of them hung up or in error: the two ready lists are permutations of
+each other (same masks) -/
+theorem ready_lists_perm (s : State) (h : Inv s) (S : Sync s) (rE rS : List (Nat × Nat))
     (hE : validReady .epoll s rE = true) (hS : validReady .select s rS = true)
-    (hsame : ∀ f, f ∈ rE.map (·.1) ↔ f ∈ rS.map (·.1)) (hind : OrderIndep s rE) :
-    (cbKeys (pass s rS)).Perm (cbKeys (pass s rE)) := by
-  apply hind
+    (hsame : ∀ f, f ∈ rE.map (·.1) ↔ f ∈ rS.map (·.1)) (hq : ∀ fm ∈ rE, quietFd s fm.1 = true) : rS.Perm rE := by
   obtain ⟨ndE, mE⟩ := validReady_unpack hE
   obtain ⟨ndS, mS⟩ := validReady_unpack hS
   rw [List.perm_ext_iff_of_nodup (nodup_of_map_fst ndS) (nodup_of_map_fst ndE)]
@@ -168,15 +172,36 @@ theorem C03_backends_agree (s : State) (h : Inv s) (S : Sync s) (rE rS : List (N
     obtain ⟨fm', hm', hfe⟩ := List.mem_map.1 ((hsame fm.1).2 hf)
     have : fm' = fm := by
       apply Prod.ext hfe
-      rw [mE fm' hm', mS fm hm, C03_interest_agree s h S, hfe]
+      rw [mE fm' hm', mS fm hm, ← hfe]
+      exact reported_agree s h S _ (hq fm' hm')
     rw [← this]; exact hm'
   · intro hm
     have hf : fm.1 ∈ rE.map (·.1) := List.mem_map.2 ⟨fm, hm, rfl⟩
     obtain ⟨fm', hm', hfe⟩ := List.mem_map.1 ((hsame fm.1).1 hf)
     have : fm' = fm := by
       apply Prod.ext hfe
-      rw [mS fm' hm', mE fm hm, C03_interest_agree s h S, hfe]
+      rw [mS fm' hm', mE fm hm, hfe]
+      exact (reported_agree s h S _ (hq fm hm)).symm
     rw [← this]; exact hm'
+
+-- OPEN (false as stated, round 4): "for any scenario whose outcome does not depend on the serving order the epoll and select
+-- back-ends deliver the same callbacks" WITHOUT the hypothesis `hq` below.  On a descriptor in hang-up or error the engines hand
+-- over different masks, and for error-only conditions even call different events (`C03_hup_backends_counterexample`,
+-- `C03_err_backends_counterexample`, replayed on the real loops by corpus/C03/27, 28, 31): epoll reports EPOLLHUP / EPOLLERR
+-- whatever was requested and the engine turns them into read / except (by design, see the comment in OnEventCallback; the dbus
+-- module relies on except accompanying read/write), select folds them into readable / writable of the sets that were asked for.
+-- Aligning the engines changes what existing callers receive; not a small and safe repair.  The theorems below are therefore
+-- partial: extra hypothesis `quietFd` (decidable) on the ready descriptors.
+
+/-- **back-ends agree**: from the same consistent state, with the same descriptors reported ready — none of them hung
+up or in error, where the engines report different masks by design (`C03_hup_backends_counterexample`) — a pass of the
+select back-end (ascending descriptor order) and a pass of the epoll back-end (kernel order) deliver the same callbacks
+(as a multiset of (event, readiness mask)), for every scenario whose outcome does not depend on the serving order. -/
+theorem C03_backends_agree_partial (s : State) (h : Inv s) (S : Sync s) (rE rS : List (Nat × Nat))
+    (hE : validReady .epoll s rE = true) (hS : validReady .select s rS = true)
+    (hsame : ∀ f, f ∈ rE.map (·.1) ↔ f ∈ rS.map (·.1)) (hq : ∀ fm ∈ rE, quietFd s fm.1 = true) (hind : OrderIndep s rE) :
+    (cbKeys (pass s rS)).Perm (cbKeys (pass s rE)) :=
+  hind _ (ready_lists_perm s h S rE rS hE hS hsame hq)
 
 /-- **a decidable criterion for order independence**: if the ready descriptors are distinct and the
 scripts of all their subscribers are local (enable/disable events of the same descriptor, change
@@ -189,12 +214,13 @@ theorem C03_order_indep_syn {L : Nat} (sts : List Step) (s : State) (he : exec (
 /-- **back-ends agree, decidable premise**: in a reachable state with the close contract kept, for a
 pass that satisfies the syntactic criterion, the select back-end (ascending order) and the epoll
 back-end (kernel order) deliver the same callbacks. -/
-theorem C03_backends_agree_syn {L : Nat} (sts : List Step) (s : State) (he : exec (initL L) sts = some s) (hb : s.breach = false)
+theorem C03_backends_agree_syn_partial {L : Nat} (sts : List Step) (s : State) (he : exec (initL L) sts = some s) (hb : s.breach = false)
     (rE rS : List (Nat × Nat)) (hE : validReady .epoll s rE = true) (hS : validReady .select s rS = true)
-    (hsame : ∀ f, f ∈ rE.map (·.1) ↔ f ∈ rS.map (·.1)) (hsyn : OrderIndepSyn s rE = true) :
+    (hsame : ∀ f, f ∈ rE.map (·.1) ↔ f ∈ rS.map (·.1)) (hq : ∀ fm ∈ rE, quietFd s fm.1 = true)
+    (hsyn : OrderIndepSyn s rE = true) :
     (cbKeys (pass s rS)).Perm (cbKeys (pass s rE)) :=
-  C03_backends_agree s (exec_inv sts (initL L) (initL_inv L) s he) (exec_sync sts (initL L) (initL_inv L) (initL_sync L) s he hb) rE rS hE hS
-    hsame (C03_order_indep_syn sts s he rE hsyn)
+  C03_backends_agree_partial s (exec_inv sts (initL L) (initL_inv L) s he) (exec_sync sts (initL L) (initL_inv L) (initL_sync L) s he hb) rE rS hE hS
+    hsame hq (C03_order_indep_syn sts s he rE hsyn)
 
 /-! ### a whole turn of `runLoop()` -/
 
@@ -210,34 +236,15 @@ theorem C03_scripts_make_no_callback (scs : List (List Act)) (s : State) : cbKey
 same order), same deferred batch, the same descriptors reported ready; if the dispatch — which starts
 from the state the timer callbacks left behind, with the snapshot of the wait — satisfies the decidable
 criterion, select (ascending order) and epoll (kernel order) deliver the same callbacks. -/
-theorem C03_backends_agree_loop {L : Nat} (sts : List Step) (s : State) (he : exec (initL L) sts = some s)
+theorem C03_backends_agree_loop_partial {L : Nat} (sts : List Step) (s : State) (he : exec (initL L) sts = some s)
     (hb : s.breach = false) (tms nx : List (List Act)) (rE rS : List (Nat × Nat))
     (hE : validReady .epoll s rE = true) (hS : validReady .select s rS = true)
-    (hsame : ∀ f, f ∈ rE.map (·.1) ↔ f ∈ rS.map (·.1)) (hsyn : OrderIndepSyn (runScripts s tms) rE = true) :
+    (hsame : ∀ f, f ∈ rE.map (·.1) ↔ f ∈ rS.map (·.1)) (hq : ∀ fm ∈ rE, quietFd s fm.1 = true)
+    (hsyn : OrderIndepSyn (runScripts s tms) rE = true) :
     (cbKeys (loopPass s tms rS nx)).Perm (cbKeys (loopPass s tms rE nx)) := by
   have h := exec_inv sts (initL L) (initL_inv L) s he
   have S := exec_sync sts (initL L) (initL_inv L) (initL_sync L) s he hb
-  obtain ⟨ndE, mE⟩ := validReady_unpack hE
-  obtain ⟨ndS, mS⟩ := validReady_unpack hS
-  have hperm : rS.Perm rE := by
-    rw [List.perm_ext_iff_of_nodup (nodup_of_map_fst ndS) (nodup_of_map_fst ndE)]
-    intro fm
-    constructor
-    · intro hm
-      have hf : fm.1 ∈ rS.map (·.1) := List.mem_map.2 ⟨fm, hm, rfl⟩
-      obtain ⟨fm', hm', hfe⟩ := List.mem_map.1 ((hsame fm.1).2 hf)
-      have : fm' = fm := by
-        apply Prod.ext hfe
-        rw [mE fm' hm', mS fm hm, C03_interest_agree s h S, hfe]
-      rw [← this]; exact hm'
-    · intro hm
-      have hf : fm.1 ∈ rE.map (·.1) := List.mem_map.2 ⟨fm, hm, rfl⟩
-      obtain ⟨fm', hm', hfe⟩ := List.mem_map.1 ((hsame fm.1).1 hf)
-      have : fm' = fm := by
-        apply Prod.ext hfe
-        rw [mS fm' hm', mE fm hm, C03_interest_agree s h S, hfe]
-      rw [← this]; exact hm'
-  exact loopPass_order_indep s h tms nx rE hsyn rS hperm
+  exact loopPass_order_indep s h tms nx rE hsyn rS (ready_lists_perm s h S rE rS hE hS hsame hq)
 
 /-- **a failed wait is harmless**: after EINTR or EBADF the select loop never terminates, and the turn is
 the whole turn with an empty ready list resp. the EBADF turn — whatever the timer callbacks do in between
@@ -283,6 +290,169 @@ theorem C03_select_high_fd_asfound_counterexample :
     ∃ sts s, exec init sts = some s ∧ interest .select s 1024 = 1 ∧
       (exec (initL 1024) sts).map (fun s => interest .select s 1024) = some 0 :=
   ⟨[.newEv [], .api (.init 0 1024 1 false), .api (.enable 0)], _, rfl, by decide, by decide⟩
+
+/-! ### round 4: hang-up / error conditions produced at run time -/
+
+/-- a write-only event on descriptor 0; the harness closes the peer end -/
+def hupWriter : State :=
+  runSteps [.newEv [], .api (.init 0 0 2 false), .api (.enable 0), .api (.cond 0 0)]
+
+/-- **the engines diverge on a hung-up peer**: the same write-only subscriber, the same descriptor whose peer was
+closed — epoll hands it read|write (EPOLLHUP is reported whatever was requested and is turned into read), select hands
+it write.  Both call the same event (one of ITS conditions is in the mask: `C03_only_enabled_ready` holds on both);
+the mask handed over differs, so "the back-ends deliver the same callbacks" needs the descriptors quiet. -/
+theorem C03_hup_backends_counterexample :
+    validReady .epoll hupWriter [(0, 3)] = true ∧ validReady .select hupWriter [(0, 2)] = true ∧
+    validReady .select hupWriter [(0, 3)] = false ∧ quietFd hupWriter 0 = false ∧
+    cbKeys (pass hupWriter [(0, 3)]) = [(0, 3)] ∧ cbKeys (pass hupWriter [(0, 2)]) = [(0, 2)] := by decide
+
+/-- **… and on an error condition even in WHO is called**: an except-only event on the write end of a pipe (descriptor 7)
+whose reader is gone is called by epoll (EPOLLERR → except) and never reported by select (its except set means urgent
+data only); a write-only event on that pipe when it is also full is called by select (error counts as writable) and
+not by epoll, which hands `except` to an event that did not ask for it — no callback — in every turn. -/
+theorem C03_err_backends_counterexample :
+    let s := runSteps [.newEv [], .api (.init 0 7 4 false), .api (.enable 0), .api (.cond 7 0)]
+    let t := runSteps [.newEv [], .api (.init 0 7 2 false), .api (.enable 0), .api (.setW 7 false), .api (.cond 7 0)]
+    validReady .epoll s [(7, 4)] = true ∧ cbKeys (pass s [(7, 4)]) = [(0, 4)] ∧
+    reported .select s 7 = 0 ∧ validReady .select s [] = true ∧
+    validReady .select t [(7, 2)] = true ∧ cbKeys (pass t [(7, 2)]) = [(0, 2)] ∧
+    validReady .epoll t [(7, 4)] = true ∧ cbKeys (pass t [(7, 4)]) = [] ∧
+    validReady .epoll (pass t [(7, 4)]) [(7, 4)] = true := by decide
+
+/-- what the statement does not promise and the epoll engine does not do: a write-only event on the read end of a pipe
+(descriptor 6) whose writer is gone is reported in every turn (EPOLLHUP → read), nobody is called (the mask misses the
+event), nothing changes — the loop spins.  Safe with respect to "only when enabled and ready"; recorded as an observation. -/
+theorem C03_hup_unmet_mask_spins :
+    let s := runSteps [.newEv [], .api (.init 0 6 2 false), .api (.enable 0), .api (.cond 6 0)]
+    validReady .epoll s [(6, 1)] = true ∧ cbKeys (pass s [(6, 1)]) = [] ∧
+    validReady .epoll (pass s [(6, 1)]) [(6, 1)] = true ∧ reported .select s 6 = 0 := by decide
+
+/-- the run-time conditions as the kernel model has them (each line is re-measured on the real kernel by every run):
+peer closed with everything read → IN|OUT|HUP; peer closed while our send buffer is full → also ERR; peer shut down its
+write side → IN, no HUP; pipe read end without writer → HUP only; refused connect → IN|OUT|ERR|HUP from the start -/
+theorem C03_kernel_conditions :
+    let flags := fun (s : State) f => (s.readable f, s.writable f, s.err f, s.hup f)
+    flags (runSteps [.api (.cond 0 0)]) 0 = (true, true, false, true) ∧
+    flags (runSteps [.api (.setW 0 false), .api (.cond 0 0)]) 0 = (true, true, true, true) ∧
+    flags (runSteps [.api (.cond 0 1)]) 0 = (true, true, false, false) ∧
+    flags (runSteps [.api (.cond 6 0)]) 6 = (false, false, false, true) ∧
+    flags (runSteps [.api (.setR 6 true), .api (.cond 6 0), .api (.setR 6 false)]) 6 = (false, false, false, true) ∧
+    flags (runSteps [.api (.cond 7 0)]) 7 = (false, true, true, false) ∧
+    flags init 8 = (true, true, true, true) ∧
+    -- end-of-file cannot be drained, a closed peer cannot write
+    flags (runSteps [.api (.cond 0 1), .api (.setR 0 false)]) 0 = (true, true, false, false) ∧
+    flags (runSteps [.api (.cond 6 0), .api (.setR 6 true)]) 6 = (false, false, false, true) := by decide
+
+/-! ### round 4: `epoll_ctl` failures -/
+
+/-- **EEXIST cannot happen, and what the kernel holds is never more than the loop wants**: in every reachable state —
+injected ADD failures and descriptors closed behind the loop's back included — the kernel's entry for a descriptor is
+exactly the mask the record caches, or nothing.  So an `EPOLL_CTL_ADD` (issued only when the cached mask is 0) never
+meets an existing entry, and the kernel never reports a condition nobody wants. -/
+theorem C03_ctl_kernel_within_wanted {L : Nat} (sts : List Step) (s : State) (he : exec (initL L) sts = some s) (f : Nat) :
+    (∀ r, s.recs f = some r → (s.kern f = maskOf r ∨ s.kern f = 0) ∧ (r.kev = 0 → s.kern f = 0)) ∧
+    (s.recs f = none → s.kern f = 0) := by
+  have h := exec_inv sts (initL L) (initL_inv L) s he
+  refine ⟨fun r hr => ?_, fun hn => (h.norec f hn).1⟩
+  have ok := h.recs f r hr
+  refine ⟨by rw [← ok.kev]; exact ok.kor, fun h0 => ?_⟩
+  rcases ok.kor with hk | hk
+  · rw [hk, h0]
+  · exact hk
+
+/-- **`enable()` does not notice a refused ADD** (the code ignores the result of `epoll_ctl`): it returns what it returns
+otherwise, and event table and shared records are exactly those of a successful `enable()` — only the kernel differs. -/
+theorem C03_refused_add_unnoticed (s : State) (e : Nat) :
+    (enableEvF s e).2 = (enableEv s e).2 ∧ (enableEvF s e).1.evs = (enableEv s e).1.evs ∧
+    (enableEvF s e).1.recs = (enableEv s e).1.recs := by
+  unfold enableEvF restoreOpen refuseAdd enableEv
+  dsimp only
+  split; · exact ⟨rfl, rfl, rfl⟩
+  split; · exact ⟨rfl, rfl, rfl⟩
+  split; · exact ⟨rfl, rfl, rfl⟩
+  split
+  · exact ⟨rfl, rfl, rfl⟩
+  · simp [State.setEv, State.setRec, reload_snd]
+
+/-- **a silent dead event**: after a refused ADD the event reports enabled (and `enable()` returned true), its descriptor
+is readable, and epoll never reports it (no entry in the kernel); select, which has no registration, reports it.  The
+failure spreads: a second event enabled on the descriptor issues a MOD, which fails with ENOENT — dead as well.  Only
+when every subscriber was disabled (DEL fails, harmlessly) and one is enabled again does the ADD happen again.
+Inside "fire only when enabled and ready" this is safe; it is a liveness loss the API does not report. -/
+theorem C03_refused_add_dead_event :
+    let s := runSteps [.newEv [], .newEv [], .api (.init 0 0 1 false), .api (.init 1 0 1 false), .api (.enableF 0), .api (.setR 0 true)]
+    let s2 := (act s (.enable 1)).1
+    let s3 := runScript s2 [.disable 0, .disable 1, .enable 1]
+    (act (runSteps [.newEv [], .newEv [], .api (.init 0 0 1 false)]) (.enableF 0)).2 = true ∧
+    (s.evs 0).enabled = true ∧ s.readable 0 = true ∧ reported .epoll s 0 = 0 ∧ validReady .epoll s [(0, 1)] = false ∧
+    validReady .epoll s [] = true ∧ reported .select s 0 = 1 ∧ s.breach = true ∧
+    (s2.evs 1).enabled = true ∧ reported .epoll s2 0 = 0 ∧
+    reported .epoll s3 0 = 1 ∧ cbKeys (pass s3 [(0, 1)]) = [(1, 1)] := by decide
+
+/-- the recovery in general: once the cached mask is back to 0 the next ADD that the kernel accepts registers exactly
+the wanted mask -/
+theorem C03_ctl_add_restores (k : Nat → Nat) (f : Nat) (r : Rec) (hk : k f = r.kev ∨ k f = 0) (h0 : r.kev = 0)
+    (hn : maskOf r ≠ 0) : (reload k true f r).1 f = maskOf r := by
+  have hz : k f = 0 := by rcases hk with h | h; · rw [h, h0]
+                          · exact h
+  unfold reload
+  simp [h0, hn, hz, upd]
+
+/-! ### round 4: state-derived inputs — "unchanged? then skip" shortcuts -/
+
+/-- `initialize` on an enabled event is refused and changes nothing — also with the very descriptor and mask it has -/
+theorem C03_init_while_enabled_refused (s : State) (e f m : Nat) (o : Bool) (ha : (s.evs e).alive = true)
+    (hen : (s.evs e).enabled = true) : initEv s e f m o = (s, false) := by
+  unfold initEv; simp [ha, hen]
+
+/-- `enable()` of an enabled event changes nothing (no second subscription, no counter touched) -/
+theorem C03_enable_twice (s : State) (e : Nat) (ha : (s.evs e).alive = true) (hi : (s.evs e).inited = true)
+    (hen : (s.evs e).enabled = true) : enableEv s e = (s, true) := by
+  unfold enableEv; simp [ha, hi, hen]
+
+/-- re-initialising a disabled event with THE SAME descriptor and mask is not a no-op: the mode still takes effect
+(a persistent event becomes one-shot) — what a "same fd, same mask → return" shortcut would lose; and the mode is
+sticky the other way (as coded: `initialize` only ever sets `is_stop_after_trigger_`) -/
+theorem C03_reinit_same_fd_mask_sets_mode :
+    let s := runSteps [.newEv [], .api (.init 0 0 1 false), .api (.init 0 0 1 true), .api (.enable 0), .api (.setR 0 true)]
+    let t := runSteps [.newEv [], .api (.init 0 0 1 true), .api (.init 0 0 1 false), .api (.enable 0), .api (.setR 0 true)]
+    (s.evs 0).oneshot = true ∧ ((pass s [(0, 1)]).evs 0).enabled = false ∧
+    (t.evs 0).oneshot = true ∧ ((pass t [(0, 1)]).evs 0).enabled = false := by decide
+
+/-- **counts do not determine membership** (the seeded C03-7 pattern, generalised): events 0, 1 enabled and 2 disabled on
+descriptor 0 (equal masks; event 1 one-shot), event 3 on descriptor 1.  The callback of event 0 disables 1 and enables 2:
+the subscriber vector has the same length, the three counters, the reference count, the cached mask and the kernel entry
+are unchanged — and event 1 must not be called (it is not), event 2 is not in the snapshot (not called in this turn).
+Across descriptors the same holds for the totals. -/
+def swapDemo : State :=
+  runSteps [.newEv [.disable 1, .enable 2], .newEv [], .newEv [], .newEv [],
+            .api (.init 0 0 1 false), .api (.init 1 0 1 true), .api (.init 2 0 1 false), .api (.init 3 1 1 false),
+            .api (.enable 0), .api (.enable 1), .api (.enable 3), .api (.setR 0 true)]
+/-- everything a "same size / same count → unchanged" shortcut could look at -/
+def recSig (u : State) (f : Nat) : Option (List Nat) :=
+  (u.recs f).map fun r => [r.subs.length, r.rd, r.wr, r.ex, r.ref, r.kev, u.kern f]
+
+theorem C03_swap_keeps_counts :
+    recSig swapDemo 0 = recSig (pass swapDemo [(0, 1)]) 0 ∧ (swapDemo.recs 0).map (·.subs) = some [0, 1] ∧
+    ((pass swapDemo [(0, 1)]).recs 0).map (·.subs) = some [0, 2] ∧
+    cbKeys (pass swapDemo [(0, 1)]) = [(0, 1)] ∧ ((pass swapDemo [(0, 1)]).evs 1).enabled = false := by
+  refine ⟨?_, ?_, ?_, ?_, ?_⟩ <;> decide
+
+/-- **ABA through the object pool**: the callback of event 0 (descriptor 0) deletes the only event of the ready descriptor 1
+— its record goes back to the pool — and initialises + enables a spare event on descriptor 2: the new record lands in THE
+SAME pool block; the stale ready entry of descriptor 1 is then served by fd lookup and finds no record (no callback, no
+access to the reused block), descriptor 2 is not in this turn's ready list.  Same number of records, same block. -/
+theorem C03_pool_block_aba :
+    let s := runSteps [.newEv [.destroy 1, .init 2 2 1 false, .enable 2], .newEv [], .newEv [],
+                       .api (.init 0 0 1 false), .api (.init 1 1 1 false), .api (.enable 0), .api (.enable 1),
+                       .api (.setR 0 true), .api (.setR 1 true), .api (.setR 2 true)]
+    let t := pass s [(0, 1), (1, 1)]
+    (s.recs 1).map (·.block) = (t.recs 2).map (·.block) ∧ (s.recs 1).isSome = true ∧ t.recs 1 = none ∧
+    cbKeys t = [(0, 1)] ∧ (∀ b, Out.bad b ∉ t.log) := by
+  refine ⟨by decide, by decide, by decide, by decide, ?_⟩
+  intro b hb
+  revert hb
+  cases b <;> decide
 
 /-! ### non-vacuity: concrete executions that satisfy the hypotheses -/
 
@@ -336,6 +506,17 @@ example : (exec init (demoTimer.take 5 ++ [.api (.kill 0), .loopBadf [0] [[.post
 /-- the select limit: descriptor 1023 is accepted, 1024 refused -/
 example : (exec (initL 1024) [.newEv [], .api (.init 0 1023 1 false), .api (.enable 0)]).map
     (fun s => interest .select s 1023) = some 1 := by decide
+
+/-- round 4: the premises of the agreement theorems are satisfiable (all ready descriptors quiet), and a hung-up one is not -/
+example : (∀ fm ∈ [(1, 3), (0, 1)], quietFd quiet fm.1 = true) ∧ quietFd hupWriter 0 = false := by decide
+/-- an execution with run-time conditions and a refused ADD is an execution like any other: the theorems above cover it -/
+example : (exec init [.newEv [.cond 1 0, .enableF 1], .newEv [], .api (.init 0 0 1 false), .api (.init 1 1 2 true), .api (.enable 0),
+    .api (.setR 0 true), .api (.setW 1 false), .loop .epoll [] [(0, 1)] [], .api (.disable 1), .api (.enable 1),
+    .loop .epoll [] [(0, 1), (1, 7)] []]).map cbKeys = some [(1, 7), (0, 1), (0, 1)] := by decide
+/-- premises of `C03_ctl_add_restores`, `C03_init_while_enabled_refused`, `C03_enable_twice` -/
+example : ∃ (k : Nat → Nat) (r : Rec), (k 0 = r.kev ∨ k 0 = 0) ∧ r.kev = 0 ∧ maskOf r ≠ 0 :=
+  ⟨fun _ => 0, { rd := 1 }, Or.inl rfl, rfl, by decide⟩
+example : (quiet.evs 0).alive = true ∧ (quiet.evs 0).inited = true ∧ (quiet.evs 0).enabled = true := by decide
 
 -- OPEN (round 3: looked at, not closed): a wider criterion that also admits initialize/destroy/close confined to
 -- one ready descriptor's own events and numbers.  `SimF`/`Frame` (OrderIndep.lean) compare records with `=`;
